@@ -10,6 +10,7 @@ broadcast use {axiom_string_ext, axiom_str_ext, axiom_str_of, axiom_vec_ext, axi
 pub assume_specification<T: PartialEq, A: std::alloc::Allocator>[ Vec::<T, A>::dedup ](v: &mut Vec<T, A>)
     ensures forall|x: T| final(v)@.contains(x) == old(v)@.contains(x);
 
+//@include spec/sortspec.rs
 //@include spec/indexset.rs
 //@include units/fol_types.inc
 //@include spec/sem.rs
